@@ -62,6 +62,7 @@ var scTokens = map[string]string{
 	"T_ctrl":     "bell\x07 esc\x1b",
 	"T_ls":       "sep\u2028nel\u0085bom\ufeff.",
 	"T_long":     strings.Repeat("a long value with  double blanks and words, ", 6) + "end",
+	"T_mldollar": "price: ${amount}\n%{literal} and $${x}\n",
 	"T_json":     `{"login": "{{.request.r1.preprocessor.user.login}}", "pass": "p\"q"}`,
 	"T_tmplbody": "{\"user_id\": {{.request.r1.preprocessor.user}}}\n",
 	"T_hdrmod":   `Authorization|lower|replace(=,)|substr(6)`,
